@@ -281,11 +281,11 @@ func (f *Frame) callContract(ct *Contract, callee *ssa.Function, sig *types.Sign
 			if callee == nil || ct.Trusted {
 				for i := 0; i < sig.Params().Len(); i++ {
 					if kindOf(sig.Params().At(i).Type()) == KChan {
-						g.havocNames(post, &modSet{names: map[string]Sort{recvHeap: recvSort}})
+						g.havocNames(post, &modSet{names: chanGhostNames()})
 					}
 				}
 			} else if cms := g.P.funcModSet(callee); cms.all || cms.names[recvHeap] != "" || len(cms.paramCalls) > 0 {
-				g.havocNames(post, &modSet{names: map[string]Sort{recvHeap: recvSort}})
+				g.havocNames(post, &modSet{names: chanGhostNames()})
 			}
 		}
 	} else {
